@@ -243,6 +243,11 @@ impl Check for C09 {
             if fields.is_empty() {
                 fields.push(Field { name: nm.fresh(&mut r, "field"), ty: prim(&mut r), public: true, rename: None, skip: false, validate: None });
             }
+            // a seventh of the projects have leaf types WITHOUT any serialised field (`struct Marker {}`):
+            // they are types like any other and the types that mention them read their schema
+            if i % 7 == 5 && !dag.iter().any(|e| e.0 == k) {
+                fields.clear();
+            }
             r.shuffle(&mut fields);
             items.push(Item::Struct(StructDef { name: names[k].clone(), fields, rename_all: None, serde: true, qualified_derive: r.chance(1, 6) }));
         }
@@ -365,6 +370,24 @@ impl Check for C09 {
                 cfg.mappings.insert(key, "string".into());
             }
             cfg.mappings.insert("DateTime<Utc>".into(), "string".into());
+        }
+        // a type mapping whose TARGET is a type of the project itself (`OwnerRef` -> `Owner`, for a
+        // foreign wrapper or alias): however the mapped type is rendered, nothing may be read early
+        if (i / 6) % 4 == 3 && n >= 2 {
+            let mut ar = r.split("alias-mapping");
+            let holder = ar.range(1, n - 1);
+            let target = ar.below(holder as u64) as usize;
+            let alias = format!("{}Ref", names[target]);
+            for f in files.iter_mut() {
+                for it in f.items.iter_mut() {
+                    if let Item::Struct(sd) = it {
+                        if sd.name == names[holder] {
+                            sd.fields.push(Field { name: "mapped_alias_field".into(), ty: Ty::Named(alias.clone()), public: true, rename: None, skip: false, validate: None });
+                        }
+                    }
+                }
+            }
+            cfg.mappings.insert(alias, names[target].clone());
         }
         let setups = [Setup::default_cli(), Setup { entry: Entry::Build, cwd: crate::world::Cwd::SrcTauri, ..Setup::default_cli() }];
         let setup = setups[(i % 7 == 0) as usize].clone();
